@@ -28,6 +28,7 @@ def main():
     name, prop, src = sys.argv[1], sys.argv[2], sys.argv[3]
     checks = [prop]
     tier = "quick"
+    skip_suite = "--skip-suite" in sys.argv
     for a in sys.argv[4:]:
         if a.startswith("--checks"):
             checks = a.split("=", 1)[1].split(",")
@@ -54,10 +55,13 @@ def main():
         else:
             rc1, out1 = run([PY, "-m", "pytest", "-q", "-p", "no:cacheprovider", "--timeout=300", "seeded_demo_test.py"], cwd=d, env=env)
             meta["steps"]["demo_with_change"] = {"rc": rc1, "tail": out1[-600:]}
-            rc2, out2 = run([PY, "-m", "pytest", "-q", "-p", "no:cacheprovider", "--timeout=900", "tests", "--ignore=tests/integration",
-                             "--deselect", "tests/test_hypothesis.py::test_job_creation"], cwd=d, env=env)
-            meta["steps"]["suite_with_change"] = {"rc": rc2, "tail": out2[-300:]}
-            meta["confirmed"] = bool(rc0 == 0 and rc1 != 0 and rc2 == 0)
+            if skip_suite:
+                rc2, out2 = -1, "skipped in this invocation"
+            else:
+                rc2, out2 = run([PY, "-m", "pytest", "-q", "-p", "no:cacheprovider", "--timeout=900", "tests", "--ignore=tests/integration",
+                                 "--deselect", "tests/test_hypothesis.py::test_job_creation"], cwd=d, env=env)
+                meta["steps"]["suite_with_change"] = {"rc": rc2, "tail": out2[-300:]}
+            meta["confirmed"] = bool(rc0 == 0 and rc1 != 0 and rc2 == 0) if not skip_suite else None
             print(f"demo without change rc={rc0}, with change rc={rc1}, suite with change rc={rc2} -> confirmed={meta['confirmed']}")
             meta["checks"] = {}
             for c in checks:
